@@ -787,6 +787,12 @@ class Dict(dict, base.Symbolic, pg_typing.CustomTyping):
     if isinstance(value, base.TopologyAware):
       value.sym_setparent(None)
       value.sym_setpath(utils.KeyPath())
+    if flags.is_change_notification_enabled():
+      self._notify_field_updates([
+          base.FieldUpdate(
+              utils.KeyPath(key, self.sym_path), self, None,
+              value, pg_typing.MISSING_VALUE)
+      ])
     return key, value
 
   def clear(self) -> None:
@@ -795,16 +801,37 @@ class Dict(dict, base.Symbolic, pg_typing.CustomTyping):
       raise base.WritePermissionError('Cannot clear a sealed Dict.')
     value_spec = self._value_spec
     self._value_spec = None
-    removed = list(self.sym_values())
+    removed = list(self.sym_items())
     super().clear()
     # Detach the removed values from object tree.
-    for value in removed:
+    for _, value in removed:
       if isinstance(value, base.TopologyAware):
         value.sym_setparent(None)
         value.sym_setpath(utils.KeyPath())
 
     if value_spec:
       self.use_value_spec(value_spec, self._allow_partial)
+
+    if flags.is_change_notification_enabled():
+      # NOTE: a dict with a value spec is reset to its default values.
+      target = self
+      if (self.sym_parent is not None
+          and self.sym_parent.sym_path == self.sym_path):
+        target = self.sym_parent
+      updates = []
+      for key, old_value in removed:
+        new_value = (
+            self.sym_getattr(key) if self.sym_hasattr(key)
+            else pg_typing.MISSING_VALUE)
+        if new_value is not old_value:
+          field = None
+          if value_spec and value_spec.schema:
+            field = value_spec.schema.get_field(key)
+          updates.append(base.FieldUpdate(
+              utils.KeyPath(key, self.sym_path), target, field,
+              old_value, new_value))
+      if updates:
+        self._notify_field_updates(updates)
 
   def setdefault(self, key: Union[str, int], default: Any = None) -> Any:
     """Sets default as the value to key if not present."""
